@@ -340,33 +340,56 @@ package engine
 //@   ensures step: cellOk(es) && frozen(es, e0) && rdData(es.reader) == d0 && *es == e0
 //@   ensures bytes: result == ((length > 0 && offset + length <= e0.reader.size) ? ssub(d0, offset, offset + length) : "")
 
-//@ func (*SearchEngineState).MATCHFILESTART [C03 C09 C10]
+//@ pred advancedBy0(es *SearchEngineState, e0 SearchEngineState) := es.programCounter == e0.programCounter + 1 && es.currentFileOffset == e0.currentFileOffset && es.currentMatch == e0.currentMatch && es.status == e0.status && len(es.backtrack.store) == len(e0.backtrack.store)
+//@ pred atLineStart(d Str, o Int) := o == 0 || (o >= 1 && o <= len(d) && ssub(d, o - 1, o) == "\n")
+//@ pred atLineEnd(d Str, o Int) := o == len(d) || (o + 1 <= len(d) && ssub(d, o, o + 1) == "\n") || (o + 2 <= len(d) && ssub(d, o, o + 2) == "\r\n")
+//@ func (*SearchEngineState).MATCHFILESTART [C03 C09 C10 C01]
 //@   requires cellOk(es)
 //@   let e0 := *es
 //@   let d0 := rdData(es.reader)
+//@   let nb := len(es.backtrack.store)
+//@   let snap := es.backtrack.store[nb - 1]
+//@   let holds := es.currentFileOffset == 0
 //@   modifies inferred
 //@   ensures step: cellOk(es) && frozen(es, e0) && rdData(es.reader) == d0
+//@   ensures taken: (holds != not) ==> advancedBy0(es, e0) [C01]
+//@   ensures refused: (holds == not) ==> backtrackOf(es, nb, snap) [C01]
 
-//@ func (*SearchEngineState).MATCHFILEEND [C03 C09 C10]
+//@ func (*SearchEngineState).MATCHFILEEND [C03 C09 C10 C01]
 //@   requires cellOk(es)
 //@   let e0 := *es
 //@   let d0 := rdData(es.reader)
+//@   let nb := len(es.backtrack.store)
+//@   let snap := es.backtrack.store[nb - 1]
+//@   let holds := es.currentFileOffset == len(rdData(es.reader))
 //@   modifies inferred
 //@   ensures step: cellOk(es) && frozen(es, e0) && rdData(es.reader) == d0
+//@   ensures taken: (holds != not) ==> advancedBy0(es, e0) [C01]
+//@   ensures refused: (holds == not) ==> backtrackOf(es, nb, snap) [C01]
 
-//@ func (*SearchEngineState).MATCHLINESTART [C03 C09 C10]
+//@ func (*SearchEngineState).MATCHLINESTART [C03 C09 C10 C01]
 //@   requires cellOk(es)
 //@   let e0 := *es
 //@   let d0 := rdData(es.reader)
+//@   let nb := len(es.backtrack.store)
+//@   let snap := es.backtrack.store[nb - 1]
+//@   let holds := atLineStart(rdData(es.reader), es.currentFileOffset)
 //@   modifies inferred
 //@   ensures step: cellOk(es) && frozen(es, e0) && rdData(es.reader) == d0
+//@   ensures taken: (holds != not) ==> advancedBy0(es, e0) [C01]
+//@   ensures refused: (holds == not) ==> backtrackOf(es, nb, snap) [C01]
 
-//@ func (*SearchEngineState).MATCHLINEEND [C03 C09 C10]
+//@ func (*SearchEngineState).MATCHLINEEND [C03 C09 C10 C01]
 //@   requires cellOk(es)
 //@   let e0 := *es
 //@   let d0 := rdData(es.reader)
+//@   let nb := len(es.backtrack.store)
+//@   let snap := es.backtrack.store[nb - 1]
+//@   let holds := atLineEnd(rdData(es.reader), es.currentFileOffset)
 //@   modifies inferred
 //@   ensures step: cellOk(es) && frozen(es, e0) && rdData(es.reader) == d0
+//@   ensures taken: (holds != not) ==> advancedBy0(es, e0) [C01]
+//@   ensures refused: (holds == not) ==> backtrackOf(es, nb, snap) [C01]
 
 //@ func (*SearchEngineState).MATCHWORDSTART [C03 C09 C10]
 //@   requires cellOk(es)
